@@ -88,7 +88,11 @@ def snapKey (reclaim : Bool) (name : Bytes) (s : SnapSt) (k : Bytes) (e : Entry)
     if !reclaim then
       let at0 := e.kaddr + keyRecSize k.length - 12
       { s with fs := (s.fs.pwrite (keysFile name) at0 (le32i (-1))).pwrite (keysFile name) (at0 + 4) (le64 0) }
-    else s
+    else
+      -- not copied to the new files: the tombstone is dropped from memory too
+      match s.db.getValue k with
+      | some cur => if cur.state = .deleted then { s with db := { s.db with map := AL.erase s.db.map k } } else s
+      | none => s
 
 /-- position of `k` in the observed order (keys not listed sort last) -/
 def orderIx (order : List Bytes) (k : Bytes) : Nat := (order.idxOf k)
